@@ -93,9 +93,6 @@ impl Scenario for TimerBatches {
     fn name(&self) -> &'static str {
         "timer_batches"
     }
-    fn isolated(&self) -> bool {
-        false
-    }
     fn quick_runs(&self, _f: &str) -> u64 {
         24000
     }
